@@ -358,16 +358,21 @@ def stateNone (s : Fock D) : R (List (Nat × D)) :=
   | .error e => .error e
   | .ok labels => .ok (labels.zip s.axes)
 
-/-- `state(modes)`: `modes` are positions among the axes; returned in the requested order -/
+/-- `state(modes)`: `modes` are subsystem indices (repeated ⇒ `ValueError`; remapped through `_remap_modes`:
+`IndexError` beyond the map, `ValueError` for a deleted index or an empty list); data and labels of the remapped axes,
+in the requested order -/
 def stateModes (s : Fock D) (modes : List Nat) : R (List (Nat × D)) :=
   if hasDup modes then .error .value
-  else if modes.length > s.axes.length then .error .value
-  else match getAll s.axes modes with
-    | .error _ => .error .value           -- malformed einsum string
-    | .ok data =>
-      match getAll s.getModes modes with
-      | .error e => .error e
-      | .ok labels => .ok (labels.zip data)
+  else match s.remapModes modes with
+    | .error e => .error e
+    | .ok ps =>
+      if ps.length > s.axes.length then .error .value
+      else match getAll s.axes ps with
+        | .error _ => .error .value           -- malformed einsum string
+        | .ok data =>
+          match getAll s.getModes ps with
+          | .error e => .error e
+          | .ok labels => .ok (labels.zip data)
 
 def applyCmd (s : Fock D) (c : Cmd) : R (Fock D) :=
   match c.op with
@@ -448,13 +453,13 @@ def stateNone (s : PS D) : R (List (Nat × D)) :=
   | .error e => .error e
   | .ok data => .ok (s.getModes.zip data)
 
-/-- Gaussian `state(modes)`: positions in the list of active modes -/
+/-- Gaussian `state(modes)`: subsystem indices; every one has to be active (`ValueError` otherwise); the rows of the
+requested indices in the requested order, labelled with them -/
 def stateModesG (s : PS D) (modes : List Nat) : R (List (Nat × D)) :=
-  match getAll s.getModes modes with
-  | .error e => .error e
-  | .ok labels => match getAll s.rows labels with
+  if modes.any (fun i => !s.getModes.contains i) then .error .value
+  else match getAll s.rows modes with
     | .error e => .error e
-    | .ok data => .ok (labels.zip data)
+    | .ok data => .ok (modes.zip data)
 
 /-- insertion into an ascending list (`sorted(modes)`) -/
 def insertAsc (m : Nat) : List Nat → List Nat
@@ -463,13 +468,15 @@ def insertAsc (m : Nat) : List Nat → List Nat
 
 def sortAsc (l : List Nat) : List Nat := l.foldr insertAsc []
 
-/-- bosonic `state(modes)`: `modes` are mode indices; data and labels in ascending index order; no activity
-test (a deleted index returns its vacuum row), `IndexError` beyond the stored modes -/
+/-- bosonic `state(modes)`: subsystem indices, every one active (`ValueError` otherwise); data and labels in
+ascending index order -/
 def stateModesB (s : PS D) (modes : List Nat) : R (List (Nat × D)) :=
-  let ms := sortAsc modes
-  match getAll s.rows ms with
-  | .error e => .error e
-  | .ok data => .ok (ms.zip data)
+  if modes.any (fun i => !s.getModes.contains i) then .error .value
+  else
+    let ms := sortAsc modes
+    match getAll s.rows ms with
+    | .error e => .error e
+    | .ok data => .ok (ms.zip data)
 
 def applyCmd (s : PS D) (c : Cmd) : R (PS D) :=
   match c.op with
